@@ -19,15 +19,33 @@ def _init():
     sys.setrecursionlimit(10000)
 
 
+class SoftTimeout(BaseException):
+    """Raised in the worker's main thread when a plan exceeds its soft budget (not catchable by the
+    pipeline's `except Exception`)."""
+
+
+def _on_alarm(signum, frame):
+    raise SoftTimeout()
+
+
 def _call(fn_path, arg):
-    faulthandler.dump_traceback_later(int(os.environ.get("VERIF_RUN_WATCHDOG", RUN_WATCHDOG_S)), exit=True)
+    import signal
+
+    hard = int(os.environ.get("VERIF_RUN_WATCHDOG", RUN_WATCHDOG_S))
+    faulthandler.dump_traceback_later(hard, exit=True)  # backstop: kills the worker (-> exit 2)
+    signal.signal(signal.SIGALRM, _on_alarm)
+    signal.setitimer(signal.ITIMER_REAL, hard * 0.6)   # first try to give the plan up gracefully
     try:
         mod, name = fn_path.rsplit(":", 1)
         import importlib
 
         fn = getattr(importlib.import_module(mod), name)
         return fn(arg)
+    except SoftTimeout:
+        return {"violations": [], "nontrivial": None, "summary": [], "runs": 0, "harness_timeout": True,
+                "note": "HARNESS-TIMEOUT: plan gave up after %.0fs" % (hard * 0.6)}
     finally:
+        signal.setitimer(signal.ITIMER_REAL, 0)
         faulthandler.cancel_dump_traceback_later()
 
 
